@@ -21,10 +21,10 @@ RULE = ('derivation histories on an n x c recording with entry (r, j) = ((r*c + 
         'selectors = 89) one history deriving o1(reader) and then EVERY second operator o2 from it (all programs '
         'of depth <= 2, 8 010 per dtype), each child read with a row index (int / negative int / slice across a '
         'file boundary / list / ndarray) with and without a trailing column selector, parent and root re-read at '
-        'the end; exhaustive on int16 and float64 in quick, on every dtype in thorough, sampled on the other '
+        'the end (2 of the ~12 rotating row indices are EMPTY selections, so about every sixth program is read with one); exhaustive on int16 and float64 in quick, on every dtype in thorough, sampled on the other '
         'dtypes / backends (flat multi-file, in-memory array, .npy, mtscomp .cbin) in quick; depth-3 fans sampled '
         'in thorough; (ii) seeded random programs of depth 1-4 with random row index, column selector, dtype, '
-        'backend, layout; (iia) sweeps -- 8 (quick) / 48 (thorough) programs each followed by EVERY row index of the regime on 4 / 5 rows (all integers, all unit-step slices selecting >= 1 row, all non-empty increasing lists, as list or ndarray); (iii) derivation trees of <= 7 readers (parents, siblings, grandchildren) where every '
+        'backend, layout; (iia) sweeps -- 8 (quick) / 48 (thorough) programs each followed by EVERY row index of the regime on 4 / 5 rows (all integers, all unit-step slices selecting >= 1 row, all non-empty increasing lists, as list or ndarray, and ALL empty slices of the reading in all four sign forms; every seventh read through the one-element tuple reader[(rows,)]); (iii) derivation trees of <= 7 readers (parents, siblings, grandchildren) where every '
         'existing reader is re-read after every derivation, plus hand-written aliasing corner cases. Programs '
         'whose eager NumPy evaluation raises are dropped from the history (counted); reads on which NumPy itself '
         'is not row-count independent (pure-NumPy evaluation on the block != on the whole array, e.g. SIMD vs '
@@ -34,9 +34,10 @@ EXHAUSTIVE = {'quick': True, 'thorough': True}
 CLAUSES = {
     1: 'observed answers differ from the Coq model PV.C02.Model (heap model of _append_op + _apply_ops over '
        'PV.C01.Model.getitem_rows, instantiated with NumPy\'s tabulated element semantics)',
-    21: 'C02_commute / C02_commute_cols / C02_tree_commute: values of expr(reader)[rows(, cols)] differ from '
-        'expr(loaded array)[rows][:, cols]',
-    22: 'C02_commute: dtype of expr(reader)[rows] differs from the dtype of expr(loaded array)',
+    21: 'C02_commute / C02_commute_cols / C02_tree_commute / C02_commute_empty: values or SHAPE (rows, and the column '
+        'count -- all that an empty selection has) of expr(reader)[rows(, cols)] differ from expr(loaded array)[rows][:, cols]',
+    22: 'C02_commute / C02_commute_empty: dtype of expr(reader)[rows] differs from the dtype of expr(loaded array) '
+        '(blocks of 0 rows included)',
     23: 'C02_is_reader: an operator expression / reader[:, cols] did not return a reader (or a read returned one)',
     24: 'C02_independent / C02_independent_heap: two reads of the same reader with the same index disagree '
         '(deriving changed an existing reader)',
@@ -48,7 +49,11 @@ TRUSTED = ['NumPy array-with-scalar operators, dtype promotion (NEP 50) and basi
            'row selection of a reader without deferred operations = NumPy row selection of the concatenation '
            '(property C01; here through PV.C01.Model.getitem_rows in the comparator, abstract in the theorems)']
 ASSUMES = ['row indices as in C01 (integers in [-n, n); unit-step slices with bounds in {None} u [-n, n] selecting '
-           '>= 1 row; non-empty strictly increasing lists / ndarrays within [0, n); an integer gives a 1 x c block)',
+           '>= 1 row; non-empty strictly increasing lists / ndarrays within [0, n); an integer gives a 1 x c block), PLUS the '
+           'empty selections the reader without deferred operations answers with a (0, c) block: unit-step slices whose '
+           'NumPy-normalised bounds satisfy 0 < e <= s < n with rows s and e - 1 in the same file (PV.C02.Spec.empty_item); '
+           'stop = 0 (read as None by phylib), start = n, stop = -n, an empty slice touching a file boundary and empty '
+           'index lists are outside: there the BASE reader raises (np.vstack of no block) and so does every derived reader',
            'column selectors are slices or index lists (an integer column would change the rank)',
            'programs whose eager evaluation raises in NumPy (integer ** negative integer, Python integer out of '
            'range for the dtype, column index out of range) are outside the statement',
@@ -325,9 +330,12 @@ def rand_prog(rng):
     lists = cfg['backend'] != 'cbin'
     for _ in range(rng.choice([1, 2])):
         cols = None
-        if rng.random() < 0.35:
+        r = rng.random()
+        if r < 0.35:
             cols = _rand_op(rng, c)
             cols = cols[1] if cols[0] == 'cols' else rng.choice(colsels(c))
+        elif r < 0.43:
+            cols = TUPLE1
         cmds.append(['r', depth, _rand_item(rng, n, _bounds(sizes), lists), cols])
     if rng.random() < 0.3:
         cmds.append(['r', rng.randrange(depth + 1), ['slice', None, None, None], rng.choice(colsels(c))])
@@ -413,12 +421,13 @@ def sweeps(rng, n, count):
             its = [it for it in its if it[0] != 'list']
         cs = colsels(3)
         for j, it in enumerate(its):
-            cmds.append(['r', len(prog), it, cs[(j // 4) % 3] if j % 4 == 0 else None])
+            cmds.append(['r', len(prog), it, cs[(j // 4) % 3] if j % 4 == 0 else TUPLE1 if j % 7 == 3 else None])
         out.append(mk('sweep', list(sizes), 3, cmds, backend=be, dtype=dt, off=0 if dt.startswith('u') else -2,
                       **{'as': 'array' if k % 2 else 'list'}))
     return out
 
 
+TUPLE1 = ['tuple1']     # in the `cols` slot of a read: index with the one-element tuple (rows,)
 S = lambda *a: ['slice'] + list(a)  # noqa
 ADD2, MUL3, NEG, RSUB1 = ['add', ['i', 2]], ['mul', ['i', 3]], ['neg'], ['rsub', ['i', 1]]
 HALF = ['truediv', ['f', (0.5).hex()]]
@@ -473,6 +482,9 @@ CORPUS = [
        backend='cbin', d=2),
     mk('prog', [4], 2, [['d', 0, ['rtruediv', ['i', 7]]], ['d', 1, ['cols', S(1, None, None)]], ['r', 2, S(2, 1, None), None]],
        backend='npy', dtype='float32', off=1),
+    # the one-element tuple index reader[(rows,)] on derived readers (int, slice, list, empty slice, whole slice)
+    mk('prog', [2, 3], 3, [['d', 0, HALF], ['d', 1, C20], ['r', 2, ['int', -1], TUPLE1], ['r', 2, R13, TUPLE1], ['r', 2, ['list', [0, 4]], TUPLE1],
+                           ['r', 2, S(4, 4, None), TUPLE1], ['r', 2, S(None, None, None), TUPLE1], ['r', 0, R13, TUPLE1]], backend='flat'),
     # two column selections in a row; empty column selection
     mk('prog', [5], 4, [['d', 0, ['cols', S(1, None, None)]], ['d', 1, C20], ['d', 2, ADD2], ['r', 3, R13, None],
                         ['d', 0, ['cols', S(3, 1, None)]], ['d', 5, ADD2], ['r', 6, R13, None]]),
@@ -717,11 +729,14 @@ def run_case(case):
                         continue
                     r = eff[cm[1]]
                     it, cols = cm[2], cm[3]
+                    t1 = cols == TUPLE1          # reader[(rows,)]: the one-element tuple branch of __getitem__
+                    if t1:
+                        cols = None
                     whole = cols is not None and it == ['slice', None, None, None]
                     exp = None
                     if not whole:
                         try:
-                            E = np.atleast_2d(eager[r][py_item(it, 'list')])
+                            E = np.atleast_2d(eager[r][(py_item(it, 'list'),) if t1 else py_item(it, 'list')])
                             if cols is not None:
                                 E = E[:, py_cols(cols, 'list')]
                             exp = _block(E)
@@ -741,13 +756,16 @@ def run_case(case):
                         if not ok:
                             stats['dropped_npdiff'] += 1
                             continue
-                    cmds.append(['r', r, it, cols])
+                    cmds.append(['r', r, it, TUPLE1 if t1 else cols])
                     exps.append(exp)
                     try:
                         rd = readers[r]
                         if rd is None:
                             raise RuntimeError('reader was not created')
-                        res = rd[py_item(it, form)] if cols is None else rd[py_item(it, form), py_cols(cols, form)]
+                        if t1:
+                            res = rd[(py_item(it, form),)]
+                        else:
+                            res = rd[py_item(it, form)] if cols is None else rd[py_item(it, form), py_cols(cols, form)]
                         if isinstance(res, BaseEphysReader):
                             outs.append(['reader'])
                         else:
@@ -807,7 +825,9 @@ def _op(o):
 def _cmd(cm):
     if cm[0] == 'd':
         return q.app('CDerive', q.nat(cm[1]), _op(cm[2]))
-    return q.app('CRead', q.nat(cm[1]), _item(cm[2]), 'None' if cm[3] is None else '(Some %s)' % _colsel(cm[3]))
+    # reader[(rows,)] is `item = item[0]` and then exactly reader[rows]
+    return q.app('CRead', q.nat(cm[1]), _item(cm[2]),
+                 'None' if cm[3] is None or cm[3] == TUPLE1 else '(Some %s)' % _colsel(cm[3]))
 
 
 class _Intern(object):
@@ -1023,7 +1043,8 @@ def repro(case):
             k += 1
         else:
             lines.append('# read reader %d = %s  [%r%s]' % (cm[1], expr_text(cmds, cm[1]), py_item(cm[2], 'list'),
-                                                           '' if cm[3] is None else ', %r' % (py_cols(cm[3], 'list'),)))
+                                                           '' if cm[3] is None else ',' if cm[3] == TUPLE1
+                                                           else ', %r' % (py_cols(cm[3], 'list'),)))
     return ("import sys, os; sys.path[:0] = ['/verif/harness', os.environ.get('PHYLIB_REPO', '/repo')]\n"
             "from vt import npshim; npshim.setup_process()\n"
             "from vt.props import c02\n"
